@@ -23,6 +23,7 @@ RULE = (
     "the body and return the value but store nothing. For a third of the function-level cases the store is additionally damaged before it is opened read-only (the objects some links point to are removed, as after an incomplete restore): for calls on such entries only the nothing-is-touched oracle applies. Null storage: is_memoized false, no memento, empty function list after any history, every call runs its body. Null runner: no body ever runs, "
     "every call raises. Generators: all read-only histories up to length 2/3 over a 12-op alphabet after a fixed 3-entry population (exhaustive) + Hypothesis. "
     "Non-trivial = read-only history with a memoize of a new key, a forget and a miss call; distinct by op-kind sequence."
+    " Round 5: on the null runner, calls are also made through every chain of up to 2 (thorough: 3) caller-side modifiers other than force_local() (monitor_progress / ignore_result, on and off): none may execute the body or return."
 )
 ASSUMPTIONS = [
     "the memory backend cannot be reopened, so it is switched read-only through its read_only attribute (as the repo's own test does)",
